@@ -75,6 +75,21 @@ pub fn eq(a: &[u8], b: &[u8]) -> bool {
     e
 }
 
+/// equality of two byte strings that must both have the (concrete) length `n`: the loop bound is
+/// `n`, not a length read from a value that went through a merged `Result`/`Option`
+pub fn eqn(a: &[u8], b: &[u8], n: usize) -> bool {
+    if a.len() != n || b.len() != n {
+        return false;
+    }
+    let mut e = true;
+    let mut i = 0;
+    while i < n {
+        e &= a[i] == b[i];
+        i += 1;
+    }
+    e
+}
+
 /// Seal exactly as `UnsealedToken::seal` does: the library's own `V::nonce()` then the message.
 pub fn seal_like_lib<V: SealingVersion<P>, P: Purpose>(
     key: &<V as HasKey<P::SealingKey>>::Key,
@@ -360,21 +375,45 @@ pub fn local_nonce_is_draw<V: SealingVersion<Local>>(nonce_len: usize, last_draw
     core::mem::forget(n);
 }
 
-/// Source of signing keys for the public-token harnesses.  Backends whose `random()` is a rejection
-/// loop that symbolic execution cannot bound (paseto-v3-aws-lc: `loop { fill; from_sec1_bytes }`)
-/// set `crate::SECRET_BY_DECODE = Some(len)`: the key is then `decode` of `len` arbitrary bytes — a
-/// superset of what `random()` can return.  `random()` itself is exercised by the C16 harnesses.
-pub fn new_secret<V: SealingVersion<Public>>() -> Option<<V as HasKey<Secret>>::Key> {
-    match crate::SECRET_BY_DECODE {
-        None => forget(<V as SealingVersion<Public>>::random()),
-        Some(48) => {
-            let b: [u8; 48] = kani::any();
-            forget(<V as HasKey<Secret>>::decode(&b))
-        }
-        Some(_) => unreachable!(),
-    }
+/// `<*mut T>::is_null` / `<*const T>::is_null` as a pointer comparison.  std implements them as
+/// `ptr.addr() == 0`, an integer comparison CBMC's symbolic execution cannot fold for the address of
+/// a fresh allocation; every `LcPtr::new(..)?` of paseto-v3-aws-lc then forks an (infeasible) null
+/// branch whose merged `Result<_, PasetoError>` carries an undetermined variant, and the drop glue of
+/// that phantom `PasetoError` (Box<dyn Error>) does not terminate.  Same truth value, decidable form.
+pub fn is_null_mut<T>(p: *mut T) -> bool {
+    p == core::ptr::null_mut()
+}
+pub fn is_null_const<T>(p: *const T) -> bool {
+    p == core::ptr::null()
 }
 
+/// Source of signing keys for the public-token harnesses (`crate::SECRET_SOURCE`):
+///   0  `random()` (every backend whose key generation is straight-line);
+///   2  `decode` of a fixed valid 48-byte scalar (a different one per call) — paseto-v3-aws-lc.
+/// Why 2: aws-lc's `random()` is an unbounded rejection loop, and `decode` of symbolic bytes returns
+/// `Result<SecretKey, PasetoError>` whose Ok arm holds an FFI *pointer*; after CBMC merges the Ok and
+/// Err arms that pointer is `ite(valid, &key, <bytes of the Err variant>)`, every field read through
+/// it is symbolic, every later `LcPtr::new(..)?` forks, and the drop glue of the phantom
+/// `PasetoError`s (Box<dyn Error>) makes symbolic execution run out of memory (measured: >13 GB).
+/// With a concrete scalar the validity test folds and the key pointer is concrete.  Within the ideal
+/// model nothing is lost: the scalar only feeds the ideal functions, whose outputs (public key,
+/// signatures) remain unconstrained symbolic values; parsing of arbitrary key bytes is covered by
+/// the c08/c04 key-codec harnesses.
+pub fn new_secret<V: SealingVersion<Public>>() -> Option<<V as HasKey<Secret>>::Key> {
+    match crate::SECRET_SOURCE {
+        0 => forget(<V as SealingVersion<Public>>::random()),
+        2 => {
+            static mut NTH: u8 = 0;
+            let k = unsafe {
+                NTH += 1;
+                NTH
+            };
+            let b = [0x10u8 + k; 48];
+            forget(<V as HasKey<Secret>>::decode(&b))
+        }
+        _ => unreachable!(),
+    }
+}
 
 // ================================================================================================
 // public purpose
@@ -400,7 +439,7 @@ pub fn signed<V: SealingVersion<Public>>(m: usize, f: usize, a: usize, must_succ
         }
     };
     let pk = <V as SealingVersion<Public>>::unsealing_key(&sk);
-    let sealed = match forget(seal_like_lib::<V, Public>(&sk, msg.s(), footer.s(), aad.s())) {
+    let raw = match forget(seal_like_lib::<V, Public>(&sk, msg.s(), footer.s(), aad.s())) {
         Some(s) => s,
         None => {
             assert!(!must_succeed, "signing failed");
@@ -408,6 +447,14 @@ pub fn signed<V: SealingVersion<Public>>(m: usize, f: usize, a: usize, must_succ
             unreachable!()
         }
     };
+    // `raw` is the Ok arm of a merged Result: to CBMC its length is `ite(ok, n, <bytes of the Err
+    // variant>)`.  Check the length the format prescribes, then continue with a copy whose length is
+    // a constant (otherwise every length test downstream forks a phantom branch).
+    let n = m + crate::PUBLIC_SIG_LEN;
+    assert!(raw.len() == n, "signed payload has the wrong length");
+    let mut sealed: Vec<u8> = Vec::with_capacity(n + 2);
+    sealed.extend_from_slice(&raw[..n]);
+    core::mem::forget(raw);
     Signed { sk, pk, msg, footer, aad, sealed }
 }
 
@@ -423,6 +470,15 @@ pub fn public_roundtrip<V: SealingVersion<Public>>(m: usize, f: usize, a: usize,
         }
         None => assert!(false, "the library cannot verify its own signature"),
     }
+    core::mem::forget(s.sealed);
+}
+
+/// C01 (sealing half): signing never fails for a valid key and any message / footer / assertion, and
+/// the signed payload is message ‖ signature of the prescribed length
+pub fn public_seal_total<V: SealingVersion<Public>>(m: usize, f: usize, a: usize) {
+    let s = signed::<V>(m, f, a, true);
+    assert!(eqn(&s.sealed[..m], s.msg.s(), m), "signed payload does not start with the message");
+    kani::cover!(true, "signing reached");
     core::mem::forget(s.sealed);
 }
 
@@ -907,7 +963,7 @@ where
 /// generated signing keys: public/secret encodings have the prescribed lengths, survive
 /// decode -> encode unchanged, clones encode identically, and (when the secret encoding embeds the
 /// public key: `pub_in_secret_at`) that half equals the derived public key
-pub fn signing_key_codec<V: SealingVersion<Public> + HasKey<Secret>>(pub_len: usize, sec_len: usize, pub_in_secret_at: Option<usize>)
+pub fn signing_key_codec<V: SealingVersion<Public> + HasKey<Secret>, const PART: u8>(pub_len: usize, sec_len: usize, pub_in_secret_at: Option<usize>)
 where
     <V as HasKey<Public>>::Key: Clone,
     <V as HasKey<Secret>>::Key: Clone,
@@ -921,38 +977,48 @@ where
     };
     let pk = <V as SealingVersion<Public>>::unsealing_key(&sk);
     let ep = <V as HasKey<Public>>::encode(&pk);
-    let es = <V as HasKey<Secret>>::encode(&sk);
     assert!(ep.len() == pub_len, "public key encoding has the wrong length");
-    assert!(es.len() == sec_len, "secret key encoding has the wrong length");
-    match forget(<V as HasKey<Public>>::decode(&ep)) {
-        Some(p2) => {
-            let e2 = <V as HasKey<Public>>::encode(&p2);
-            assert!(eq(&e2, &ep), "public key changes across serialisation");
-            let e3 = <V as HasKey<Public>>::encode(&p2.clone());
-            assert!(eq(&e3, &ep), "cloned public key encodes differently");
-            core::mem::forget((e2, e3));
+    if PART == 0 {
+        match forget(<V as HasKey<Public>>::decode(&ep)) {
+            Some(p2) => {
+                let e2 = <V as HasKey<Public>>::encode(&p2);
+                assert!(eqn(&e2, &ep, pub_len), "public key changes across serialisation");
+                let e3 = <V as HasKey<Public>>::encode(&p2.clone());
+                assert!(eqn(&e3, &ep, pub_len), "cloned public key encodes differently");
+                core::mem::forget((e2, e3));
+            }
+            None => assert!(false, "the library rejects its own public key encoding"),
         }
-        None => assert!(false, "the library rejects its own public key encoding"),
-    }
-    match forget(<V as HasKey<Secret>>::decode(&es)) {
-        Some(s2) => {
-            let e2 = <V as HasKey<Secret>>::encode(&s2);
-            assert!(eq(&e2, &es), "secret key changes across serialisation");
-            let e3 = <V as HasKey<Secret>>::encode(&s2.clone());
-            assert!(eq(&e3, &es), "cloned secret key encodes differently");
-            // the re-parsed secret key derives the same public key
-            let p3 = <V as SealingVersion<Public>>::unsealing_key(&s2);
-            let e4 = <V as HasKey<Public>>::encode(&p3);
-            assert!(eq(&e4, &ep), "re-parsed secret key derives a different public key");
-            core::mem::forget((e2, e3, e4));
+    } else {
+        let es = <V as HasKey<Secret>>::encode(&sk);
+        assert!(es.len() == sec_len, "secret key encoding has the wrong length");
+        match forget(<V as HasKey<Secret>>::decode(&es)) {
+            Some(s2) => {
+                let e2 = <V as HasKey<Secret>>::encode(&s2);
+                assert!(eqn(&e2, &es, sec_len), "secret key changes across serialisation");
+                if PART == 1 {
+                    let e3 = <V as HasKey<Secret>>::encode(&s2.clone());
+                    assert!(eqn(&e3, &es, sec_len), "cloned secret key encodes differently");
+                    core::mem::forget(e3);
+                } else {
+                    // the re-parsed secret key derives the same public key
+                    let p3 = <V as SealingVersion<Public>>::unsealing_key(&s2);
+                    let e4 = <V as HasKey<Public>>::encode(&p3);
+                    assert!(eqn(&e4, &ep, pub_len), "re-parsed secret key derives a different public key");
+                    core::mem::forget(e4);
+                }
+                core::mem::forget(e2);
+            }
+            None => assert!(false, "the library rejects its own secret key encoding"),
         }
-        None => assert!(false, "the library rejects its own secret key encoding"),
-    }
-    if let Some(at) = pub_in_secret_at {
-        assert!(eq(&es[at..], &ep), "public half of the secret key encoding is not the derived public key");
+        if let Some(at) = pub_in_secret_at {
+            assert!(es.len() == at + pub_len);
+            assert!(eqn(&es[at..at + pub_len], &ep, pub_len), "public half of the secret key encoding is not the derived public key");
+        }
+        core::mem::forget(es);
     }
     kani::cover!(true);
-    core::mem::forget((ep, es));
+    core::mem::forget(ep);
 }
 
 /// byte strings of a wrong length are never accepted as public / secret keys
